@@ -745,6 +745,14 @@ class CausalGraph(HasIdentifier, HasMetadata, CanDictSerialize, CanDictDeseriali
         if self._edges_by_source[destination].get(source) is not None:
             raise CausalGraphErrors.ReverseEdgeExistsError()
 
+        # raise an error if an edge from source to destination has already been defined (e.g. after the edge class
+        # re-ordered the source and destination), rather than silently overwriting it
+        if self._edges_by_source[source].get(destination) is not None:
+            raise CausalGraphErrors.EdgeDuplicatedError(
+                f'An edge already exists between {source} and {destination}. '
+                f'Please modify or delete this and then create the new edge explicitly.'
+            )
+
         self._edges_by_source[source][destination] = edge
         self._edges_by_destination[destination][source] = edge
 
